@@ -42,13 +42,15 @@ class PyKdebugParser:
         self.dyld_addresses = []
         self.dyld_uuids = []
 
-    def kevents(self, kdebug: io.IOBase):
+    def kevents(self, kdebug: io.IOBase, helper_classes=()):
         events_generator = KdBufParser(self.threads_pids, self.pids_names).parse(kdebug)
         events_generator = filter(lambda e: not isinstance(e, OsLogEvent), events_generator)
         if self.filter_tid is not None:
             events_generator = filter(lambda e: e.tid == self.filter_tid, events_generator)
         if self.filter_class or self.filter_subclass:
-            events_generator = filter(lambda e: self._is_eventid_allowed(e.eventid), events_generator)
+            events_generator = filter(
+                lambda e: self._is_eventid_allowed(e.eventid) or e.eventid >> 24 in helper_classes, events_generator
+            )
         return events_generator
 
     def formatted_kevents(self, kdebug: io.IOBase, trace_codes=None):
@@ -58,24 +60,23 @@ class PyKdebugParser:
     def traces(self, kdebug: io.IOBase, trace_codes=None):
         trace_codes_map = default_trace_codes() if trace_codes is None else trace_codes
 
-        has_filters = self.filter_class or self.filter_subclass
-        add_trace_class = has_filters and DBG_TRACE not in self.filter_class
-        if add_trace_class:
-            self.filter_class.append(DBG_TRACE)
-        has_bsd = DBG_BSD in self.filter_class or any(filter(lambda sc: sc >> 8 == DBG_BSD, self.filter_subclass))
-        add_fs_class = has_filters and has_bsd and DBG_FSYSTEM not in self.filter_class
-        if add_fs_class:
-            self.filter_class.append(DBG_FSYSTEM)
+        has_filters = bool(self.filter_class or self.filter_subclass)
+        # Classes that must be read in order to decode the requested ones, without touching the user's filters.
+        helper_classes = []
+        if has_filters:
+            helper_classes.append(DBG_TRACE)
+            has_bsd = DBG_BSD in self.filter_class or any(sc >> 8 == DBG_BSD for sc in self.filter_subclass)
+            if has_bsd:
+                helper_classes.append(DBG_FSYSTEM)
 
         traces_parser = TracesParser(trace_codes_map, self.threads_pids, self.pids_names)
-        trace_generator = traces_parser.feed_generator(self.kevents(kdebug))
+        trace_generator = traces_parser.feed_generator(self.kevents(kdebug, helper_classes))
 
         if self.filter_process is not None:
             trace_generator = filter(self._filter_process_callback, trace_generator)
-        if add_trace_class:
-            trace_generator = filter(lambda t: t.ktraces[0].eventid >> 24 != DBG_TRACE, trace_generator)
-        if add_fs_class:
-            trace_generator = filter(lambda t: t.ktraces[0].eventid >> 24 != DBG_FSYSTEM, trace_generator)
+        if has_filters:
+            # Helper traces are consumed but reported only if the user asked for them (by class or by subclass).
+            trace_generator = filter(lambda t: self._is_eventid_allowed(t.ktraces[0].eventid), trace_generator)
         return trace_generator
 
     def formatted_traces(self, kdebug: io.IOBase, trace_codes=None):
